@@ -136,6 +136,12 @@ func allSpecs() map[string]*PropSpec {
 		NotDecided:  "slice/index bounds in general (no sound bound analysis in reach), time proportional to size beyond loop progress (e.g. repeated lookahead), unsigned wrap-around in the token encoder.",
 		Rules:       []func(*Ctx){ruleLexer, ruleParser, ruleLoopCensus, ruleRecCensus, ruleDecimalExponent, ruleRepeat, rulePanic, ruleBounds, ruleUnits("module", nil)},
 	})
+	add(&PropSpec{
+		ID:          "C03",
+		Explanation: "Only the narrow structural part of this property is decided. T7: every directive keyword the parser has a case for is in the lexer's keyword set, and every directive the property names (account, commodity, include, P, Y, D) has a parser case. T8: every token kind the lexer can emit is tested for by some parser branch. D-EXACT at the point quantities are built (decimal.NewFromString only). L-PROGRESS/P-PROGRESS/L-NEWLINE: tokens cover the input left to right, never span a line break and every loop of lexer and parser consumes input (no supported journal can hang or shift line numbers).",
+		NotDecided:  "MOST OF THE PROPERTY: that the context-free, first-character lexer heuristics classify every spelling of every supported construct correctly (upper-case or digit-leading descriptions, colons in descriptions, CRLF line ends, spaces before the first colon of a virtual account), number-notation normalisation, and the equality of the extracted structure with the written one. These are value semantics of heuristics; no structural fact in reach separates a right heuristic from a wrong one (two known counter-examples on today's tree - CRLF input and an all-caps description yield syntax errors - are invisible to every rule here).",
+		Rules:       []func(*Ctx){ruleT7T8, ruleDecimalExact("internal/parser"), ruleLexer, ruleParser},
+	})
 	return m
 }
 
